@@ -592,6 +592,19 @@ func (g *c16Gen) stale(i int, seed uint64) *c16Scenario {
 	}
 	sc.Hook2 = nil
 	sc.Warmup = r.Intn(2)
+	if sc.Warmup > 0 {
+		// the recorded rounds must still have something to write
+		h2 := sc.Hook
+		h2.Labels = map[string]*string{}
+		for k, v := range sc.Hook.Labels {
+			h2.Labels[k] = v
+		}
+		h2.Labels["deco-stamp"] = c16Str("after-warmup")
+		if h2.StatusMode == "const" {
+			h2.Status = c16J{"phase": "Stale2", "n": int64(60 + r.Intn(3))}
+		}
+		sc.Hook2 = &h2
+	}
 	ref := c16TargetRef(sc.Target)
 	var ops []c16ExtOp
 	switch r.Intn(6) {
@@ -901,14 +914,21 @@ func c16Corpus() []*c16Scenario {
 		Target: pod(c16J{"managed": "yes"}, c16J{"decorate": "no"}, nil),
 		Hook:   c16HookProgram{Kind: "const", Labels: map[string]*string{"x": c16Str("y")}},
 		Rounds: []c16RoundSpec{{}}})
-	// 4. cluster-scoped target without status subresource: status goes with the metadata update;
-	//    status null on a target without status, labels only
-	out = append(out, &c16Scenario{Family: "corpus", Features: []string{"corpus-no-status-subresource"},
+	// 4. cluster-scoped target without status subresource and without a status: a label-only change with a
+	//    null status in the response stores an explicit "status": null; the next sync then fails in NestedMap
+	out = append(out, &c16Scenario{Family: "corpus", Features: []string{"corpus-no-status-subresource-null"},
 		Ctl:    c16CtlSpec{Name: "corpus4", Rules: []c16RuleSpec{cwRule}, Attachments: []c16AttSpec{c16AttClusterGadget}},
 		Target: cw(c16J{"app": "a"}, nil),
 		Hook: c16HookProgram{Kind: "const", Labels: map[string]*string{"deco": c16Str("1")}, StatusMode: "null",
 			Attachments: []c16J{{"apiVersion": "ctl.example.com/v1", "kind": "ClusterGadget", "metadata": c16J{"name": "g0"}, "spec": c16J{"size": int64(1)}}}},
-		Hook2:  &c16HookProgram{Kind: "const", Labels: map[string]*string{"deco": c16Str("2")}, StatusMode: "const", Status: c16J{"phase": "X"}},
+		Rounds: []c16RoundSpec{{}, {}}})
+	// 4b. the same kind with a status: the status travels with the metadata update
+	out = append(out, &c16Scenario{Family: "corpus", Features: []string{"corpus-no-status-subresource"},
+		Ctl:    c16CtlSpec{Name: "corpus4b", Rules: []c16RuleSpec{cwRule}, Attachments: []c16AttSpec{c16AttClusterGadget}},
+		Target: cw(c16J{"app": "a"}, c16J{"phase": "Old"}),
+		Hook: c16HookProgram{Kind: "const", Labels: map[string]*string{"deco": c16Str("1")}, StatusMode: "const", Status: c16J{"phase": "New"},
+			Attachments: []c16J{{"apiVersion": "ctl.example.com/v1", "kind": "ClusterGadget", "metadata": c16J{"name": "g0"}, "spec": c16J{"size": int64(1)}}}},
+		Hook2:  &c16HookProgram{Kind: "const", Labels: map[string]*string{"deco": c16Str("2")}, StatusMode: "null"},
 		Warmup: 1, Rounds: []c16RoundSpec{{}, {}}})
 	// 5. two decorators on one target, look-alikes around
 	orule := c16PodRule
